@@ -346,6 +346,11 @@ def epk_variants():
             if "y" in base:
                 e = dict(base); e["y"] = x
                 out.append(e)
+    # pairs of "use" and "key_ops" (the pair is only looked at when both are present)
+    for base in (EPK_EC, EPK_X):
+        for use in ([], ["sig"], ["enc"], ["sig", "enc"], "sig", "enc", "bad", {}, None, 0, [[]], ""):
+            for ops in ([], ["sign"], ["deriveKey"], "sign", "deriveKey", ["deriveKey", "deriveBits"], [[]], {}, None, 0, ""):
+                out.append({**base, "use": use, "key_ops": ops})
     # private members inside an epk
     out.append({**EPK_EC, "d": KEYS_JSON["ec256"]["d"]})
     out.append({**EPK_EC, "d": "AA"})
